@@ -25,7 +25,7 @@ for (base, d, v) in items:
         cj = "/tmp/seedconfirm_results/%s_%s.json" % (d, v)
         if os.path.exists(cj):
             conf = json.load(open(cj))
-        r = subprocess.run(["/verif/seedtest.sh", dst + "/patch.diff", d], stdout=subprocess.PIPE, stderr=subprocess.STDOUT, text=True)
+        r = subprocess.run(["/verif/dev/seedtest.sh", dst + "/patch.diff", d], stdout=subprocess.PIPE, stderr=subprocess.STDOUT, text=True)
         lines = r.stdout.strip().splitlines()
         verdict = "MISSED (check exits 0)"
         if any(l.startswith("FAIL") for l in lines):
